@@ -101,6 +101,14 @@ structure Frontend where
   rpath : Option Bytes
   rport : Option Nat
   auth : Bool
+  /-- number of request-side header edits -/
+  nreq : Nat := 0
+  /-- number of response-side header edits other than the HSTS one -/
+  nresp : Nat := 0
+  /-- a `Strict-Transport-Security` response edit is materialised -/
+  sts : Bool := false
+  /-- `inherits_listener_hsts` -/
+  inherits : Bool := false
 deriving DecidableEq, Repr
 
 inductive Route where
@@ -119,17 +127,21 @@ structure RouteResult where
   rpath : Option Bytes
   rport : Option Nat
   auth : Bool
+  /-- `headers_request.len()` / `headers_response.len()` -/
+  nreq : Nat := 0
+  nresp : Nat := 0
 deriving DecidableEq, Repr
 
 def UNAUTHORIZED : Nat := 2
 
 /-- `RouteResult::new_no_trie` / `new_with_trie` / `from_frontend` (literal templates) -/
 def Route.result : Route → RouteResult
-  | .deny => ⟨none, UNAUTHORIZED, 0, none, none, none, none, false⟩
-  | .cluster id => ⟨some id, 0, 0, none, none, none, none, false⟩
+  | .deny => ⟨none, UNAUTHORIZED, 0, none, none, none, none, false, 0, 0⟩
+  | .cluster id => ⟨some id, 0, 0, none, none, none, none, false, 0, 0⟩
   | .frontend f =>
-    if f.redirect = UNAUTHORIZED then ⟨f.cluster, UNAUTHORIZED, f.scheme, f.tmpl, none, none, none, f.auth⟩
-    else ⟨f.cluster, f.redirect, f.scheme, f.tmpl, f.rhost, f.rpath, f.rport, f.auth⟩
+    let nresp := f.nresp + (if f.sts then 1 else 0)
+    if f.redirect = UNAUTHORIZED then ⟨f.cluster, UNAUTHORIZED, f.scheme, f.tmpl, none, none, none, f.auth, 0, nresp⟩
+    else ⟨f.cluster, f.redirect, f.scheme, f.tmpl, f.rhost, f.rpath, f.rport, f.auth, f.nreq, nresp⟩
 
 /-- the `HttpFrontend` fields the router reads -/
 structure Front where
@@ -146,6 +158,12 @@ structure Front where
   rpath : Option Bytes := none
   rport : Option Nat := none
   auth : Option Bool := none
+  /-- `headers`: the `HeaderPosition` of each entry (1 request, 2 response, 3 both, else dropped) -/
+  headers : List Nat := []
+  /-- `hsts`: `(enabled == Some(true), max_age.is_some())` -/
+  hsts : Option (Bool × Bool) := none
+  /-- `HstsOrigin::InheritedFromListenerDefault` -/
+  inherit : Bool := false
   /-- the path regex compiles (`Regex::new(..).ok()`) -/
   pathOk : Bool := true
   /-- the hostname regex compiles -/
@@ -164,7 +182,7 @@ def nonEmpty (x : Option Bytes) : Option Bytes := x.filter (fun s => !s.isEmpty)
 /-- the `has_policy` test and `Frontend::new` of `add_http_front` -/
 def routeOfFront (f : Front) : Route :=
   let hasPolicy := f.redirect.isSome || f.scheme.isSome || f.tmpl.isSome || f.rhost.isSome
-    || f.rpath.isSome || f.rport.isSome || f.auth.getD false
+    || f.rpath.isSome || f.rport.isSome || f.auth.getD false || !f.headers.isEmpty || f.hsts.isSome
   if hasPolicy then
     let redirect := match f.redirect with
       | some r => if r ≤ 4 then r else 0
@@ -175,8 +193,19 @@ def routeOfFront (f : Front) : Route :=
     let auth := f.auth.getD false
     let rport := f.rport.bind fun p => if p ≤ 65535 then some p else none
     let deny := redirect = UNAUTHORIZED || (f.cluster.isNone && redirect = 0)
-    if deny then .frontend ⟨f.cluster, UNAUTHORIZED, scheme, none, none, none, none, auth⟩
-    else .frontend ⟨f.cluster, redirect, scheme, nonEmpty f.tmpl, nonEmpty f.rhost, nonEmpty f.rpath, rport, auth⟩
+    -- the HSTS edit is rendered when `enabled = Some(true)` and `max_age` is present
+    let sts := match f.hsts with
+      | some (en, age) => en && age
+      | none => false
+    let inherits := f.inherit && f.hsts.isSome
+    if deny then
+      .frontend { cluster := f.cluster, redirect := UNAUTHORIZED, scheme, tmpl := none, rhost := none, rpath := none,
+                  rport := none, auth, nreq := 0, nresp := 0, sts, inherits }
+    else
+      .frontend { cluster := f.cluster, redirect, scheme, tmpl := nonEmpty f.tmpl, rhost := nonEmpty f.rhost,
+                  rpath := nonEmpty f.rpath, rport, auth,
+                  nreq := (f.headers.filter fun p => p = 1 || p = 3).length,
+                  nresp := (f.headers.filter fun p => p = 2 || p = 3).length, sts, inherits }
   else
     match f.cluster with
     | some id => .cluster id
@@ -281,6 +310,28 @@ def removeFront (o : Oracle) (s : Router) (f : Front) : Router × RemoveOut :=
       let r := removeTree o s.tree f.host p f.method
       ({ s with tree := r.1 }, if r.2 then .ok else .errRemove)
 
+
+/-- what `refresh_inheriting_hsts` does to one route; `edit` = the listener
+    default renders to an HSTS header (`enabled = Some(true)` with a `max_age`) -/
+def refreshRoute (edit : Bool) : Route → Route
+  | .frontend f => if f.inherits then .frontend { f with sts := edit } else .frontend f
+  | .cluster id =>
+    if edit then
+      .frontend { cluster := some id, redirect := 0, scheme := 0, tmpl := none, rhost := none, rpath := none,
+                  rport := none, auth := false, nreq := 0, nresp := 0, sts := true, inherits := true }
+    else .cluster id
+  | .deny =>
+    if edit then
+      .frontend { cluster := none, redirect := UNAUTHORIZED, scheme := 0, tmpl := none, rhost := none, rpath := none,
+                  rport := none, auth := false, nreq := 0, nresp := 0, sts := true, inherits := true }
+    else .deny
+
+/-- `Router::refresh_inheriting_hsts` -/
+def refreshHsts (edit : Bool) (s : Router) : Router :=
+  { pre := s.pre.map fun r => (r.1, r.2.1, r.2.2.1, refreshRoute edit r.2.2.2),
+    tree := s.tree.mapV (fun l => l.map fun r => (r.1, r.2.1, refreshRoute edit r.2.2)),
+    post := s.post.map fun r => (r.1, r.2.1, r.2.2.1, refreshRoute edit r.2.2.2) }
+
 /-- first pre/post rule that matches -/
 def scanList (o : Oracle) (l : List Rule4) (host path method : Bytes) : Option Route :=
   match l.find? (fun r => r.1.matches o host && r.2.1.matches o path != PathRes.none
@@ -338,6 +389,89 @@ def lookupRoute (o : Oracle) (s : Router) (host path method : Bytes) : Option Ro
 
 def lookup (o : Oracle) (s : Router) (host path method : Bytes) : Option RouteResult :=
   (lookupRoute o s host path method).map Route.result
+
+
+-- ------------------------------------------------------- listener glue --
+
+/-- `Router::has_hostname` (decides whether the hostname's tags are dropped
+    after a removal): the *pattern string* is matched as if it were a request
+    host — pre/post rules by `DomainRule::matches`, the tree by the immutable
+    `domain_lookup(.., false)`. -/
+def hasHostname (o : Oracle) (s : Router) (host : Bytes) : Bool :=
+  s.pre.any (fun r => r.1.matches o host) || (domainLookup o.seg s.tree host false).isSome
+    || s.post.any (fun r => r.1.matches o host)
+
+def isHostChar (b : Nat) : Bool :=
+  (48 ≤ b && b ≤ 57) || (65 ≤ b && b ≤ 90) || (97 ≤ b && b ≤ 122) || b = 45 || b = 46
+
+def isDigit (b : Nat) : Bool := 48 ≤ b && b ≤ 57
+
+def digitsVal (ds : List Nat) : Nat := ds.foldl (fun acc d => acc * 10 + (d - 48)) 0
+
+/-- `hostname_and_port` as used by `frontend_from_request`: the hostname of a
+    `Host` / `:authority` value, `none` when the value is rejected (empty host,
+    foreign character, port missing after `:`, port 0 or above 65535) -/
+def authorityHost (a : Bytes) : Option Bytes :=
+  let host := a.takeWhile isHostChar
+  if host.isEmpty then none
+  else
+    match a.dropWhile isHostChar with
+    | [] => some host
+    | c :: ds =>
+      if c = 58 then
+        let digs := ds.takeWhile isDigit
+        if digs.isEmpty then none
+        else if digitsVal digs = 0 || digitsVal digs > 65535 then none
+        else if (ds.dropWhile isDigit).isEmpty then some host else none
+      else none
+
+/-- a listener: plain HTTP (`https = false`) or HTTPS, its address, its router
+    and the hostnames that carry tags -/
+structure Listener where
+  https : Bool
+  addr : Nat
+  fronts : Router
+  tags : List Bytes
+
+def Listener.new (https : Bool) (addr : Nat) : Listener := ⟨https, addr, Router.new, []⟩
+
+inductive LOut | ok | errPath | errDomain | errAdd | errRemove | errHsts | errInput | errNoListener | panic
+deriving DecidableEq, Repr
+
+/-- `HttpProxy::add_http_frontend` (HSTS refused on plain HTTP, `to_frontend`,
+    listener chosen by address, tags set after a successful add) and the
+    HTTPS listener's `add_https_front_with_hsts_origin` -/
+def Listener.add (o : Oracle) (l : Listener) (f : Front) (addr : Nat) : Listener × LOut :=
+  if !l.https && f.hsts.isSome then (l, .errHsts)
+  else if f.pos > 2 then (l, .errInput)
+  else if addr ≠ l.addr then (l, .errNoListener)
+  else
+    let r := addFront o l.fronts (if l.https then f else { f with inherit := false })
+    match r.2 with
+    | .ok => ({ l with fronts := r.1, tags := if l.tags.contains f.host then l.tags else f.host :: l.tags }, .ok)
+    | .errPath => (l, .errPath)
+    | .errDomain => (l, .errDomain)
+    | .errAdd => (l, .errAdd)
+    | .panic => (l, .panic)
+
+/-- `HttpProxy::remove_http_frontend`: the tags of the hostname go when
+    `has_hostname` says no route references it any more -/
+def Listener.remove (o : Oracle) (l : Listener) (f : Front) (addr : Nat) : Listener × LOut :=
+  if f.pos > 2 then (l, .errInput)
+  else if addr ≠ l.addr then (l, .errNoListener)
+  else
+    let r := removeFront o l.fronts f
+    match r.2 with
+    | .ok =>
+      ({ l with fronts := r.1,
+                tags := if hasHostname o r.1 f.host then l.tags else l.tags.filter (· ≠ f.host) }, .ok)
+    | .errPath => (l, .errPath)
+    | .errDomain => (l, .errDomain)
+    | .errRemove => (l, .errRemove)
+
+/-- `frontend_from_request`: `none` = the authority is rejected; `some none` = no route -/
+def Listener.lookup (o : Oracle) (l : Listener) (authority path method : Bytes) : Option (Option RouteResult) :=
+  (authorityHost authority).map fun host => _root_.Sozu.Router.lookup o l.fronts host path method
 
 /-- operations of a history -/
 inductive Op where
